@@ -215,6 +215,52 @@ def run_shard(ctx):
 
     ctx.hypothesis_stage("relabel", cases(), body, 2500 if quick else 40000)
 
+    # two chains joined by a disulfide bridge; shifts that make the two cysteines carry the same residue number
+    chains = gen.protein_chains("1FTJ-Chain-A")
+    seg = chains[0][1][30:36]
+
+    @st.composite
+    def bridged(draw):
+        ress = [[a.copy() for a in r] for r in seg]
+        ress[1] = gen.mutate_residue(ress[1], "CYS", draw(st.integers(0, 10)))
+        ress[4] = gen.mutate_residue(ress[4], "CYS", draw(st.integers(0, 10)))
+        sg1 = next(a for a in ress[1] if a.aname == "SG")
+        sg2 = next(a for a in ress[4] if a.aname == "SG")
+        d = gen.DIRECTIONS[draw(st.integers(0, len(gen.DIRECTIONS) - 1))]
+        nrm = sum(c * c for c in d) ** 0.5
+        sg2.x, sg2.y, sg2.z = (sg1.x + int(d[0] * 2040 / nrm), sg1.y + int(d[1] * 2040 / nrm),
+                               sg1.z + int(d[2] * 2040 / nrm))
+        oxt = gen.make_oxt(ress[2])
+        if oxt is not None:
+            ress[2].append(oxt)
+        for r in ress[3:]:
+            for a in r:
+                a.chain = "B"
+        ents = [a for r in ress[:3] for a in r] + [gen.ter_line(ress[2][-1])] + [a for r in ress[3:] for a in r]
+        pdbio.renumber_serials(ents)
+        base = pdbio.write(ents + [gen.ter_line(ents[-1])])
+        n1, n2 = ress[1][0].resnum, ress[4][0].resnum
+        shift = draw(st.sampled_from([n1 - n2, n1 - n2, n1 - n2 + 1, 100, -40, 0]))
+        rel = [e.copy() if isinstance(e, Atom) else e for e in ents]
+        for a in pdbio.atoms_of(rel):
+            if a.chain == "B":
+                a.resnum += shift
+        if draw(st.booleans()):
+            for a in pdbio.atoms_of(rel):
+                a.chain = {"A": "x", "B": "X"}.get(a.chain, a.chain)
+        return base, pdbio.write(rel + [gen.ter_line(rel[-1])]), shift == n1 - n2
+
+    def bridged_body(t):
+        base, rel, same = t
+        case = {"pdb": base, "relabelled": rel, "kinds": ["relabel:bridged-chains"], "optargs": []}
+        v, info = check_case(case)
+        info["nontrivial"] = True
+        info["labels"] = ["bridged-chains", "same-number" if same else "different-number"]
+        info["sample"] = {"structure": "two chains joined by an S-S bridge", "relabelled_head": rel[:160]}
+        ctx.account(case, v, info)
+
+    ctx.hypothesis_stage("bridged-chains", bridged(), bridged_body, 300 if quick else 4000)
+
     # the repository's own insertion-coded structure under twin-preserving relabellings, and the F5 witness
     if ctx.shard == 0:
         text = gen.corpus_text("3SGB")
